@@ -1,5 +1,6 @@
-/- C13 — kernel-evaluated table, address changes / churn (parallel build unit) -/
+/- C13 — kernel-evaluated table, address changes / churn, rows in which the host concerned is behind a box
+   (parallel build unit) -/
 import Ipv8.C13.Script
 namespace Ipv8.C13
-theorem tableK : allCfgs.all (fun c => mutualDyn (scriptRequesterRemapped c) && mutualDyn (scriptRequesterRoams c)) = true := by decide +kernel
+theorem tableK : (allCfgs.filter boxedR).all (fun c => allOkDyn c (preRequesterRemapped c) && allOkDyn c (preRequesterRoams c)) = true := by decide +kernel
 end Ipv8.C13
